@@ -6,12 +6,12 @@ CHECKS = {
         'through once, each transform once in order, settlement of the received object is the C03 machine of the wrapped object; delay precedence per branch, exactly one stamp with '
         'both keys from one Delay, For/Until agree with the clock, atomic batch, nothing published without a delay unless AllowNoDelay; exactly one publish observation per counted call, '
         'one counter increment per delivered and settled message with the winning label, one handler observation per invocation with errors and panics as failures. '
-        'Refuted with witnesses: panic recorded as success (D11, repaired by a fix commit) and the handler middleware applied twice counting twice (known finding). '
+        'The subscriber and publisher acceptors the check evaluates are proved to accept every model run (list level: delivery order, trail per delivery, aggregated tables); Publish is also modelled in place on a heap (the same *Message several times in a batch) with a refinement theorem to the by-value model and transparency for arbitrary repetitions. Refuted with witnesses: handler panic and wrapped-publisher panic recorded as success (D11 and its publisher twin, both repaired by fix commits) and the handler middleware applied twice counting twice (known finding). '
         'Tied to the code on every run: random real decorator stacks around scripted publishers/subscribers, a private Prometheus registry gathered at quiescence, a real Router with '
         'AddPrometheusRouterMetrics 1-3 times, concurrent publishes, delay constructors bracketed by clock readings; every snapshot compared with the model and judged by the proved acceptors.'),
   note=('Trusted: Coq kernel + vm_compute; Prometheus as a log of label tuples, context marks as booleans, watcher goroutines firing on the first settlement, RFC 3339 / Duration string round trips; '
-        'the Go harness and the two add-only export_verif.go files. Partial: list-level acceptance of the subscriber acceptor by the model is evaluated per case, not proved; '
-        'a panicking wrapped publisher is outside the quantifier.'),
+        'the Go harness and the two add-only export_verif.go files. Partial: for batches that repeat an object only the transparency acceptor is proved, counting and trail multiplicity are compared per case. '
+        'Thorough tier adds a -race run (testing).'),
   technique='Coq proof (induction over stacks, batches, call and op sequences; per-object invariant; refutation witnesses by vm_compute) + differential correspondence check on the real decorators, registry and Router',
   design_ref='DESIGN.md section 7 C20'),
 }
